@@ -3,7 +3,7 @@
 Decided: C07.a–f of DESIGN.md §3. Not decided: soundness of real versions after real histories."""
 import re
 
-from rules.engine import (control_deps_transitive, origins, origin_callees, deep_origins, short, hir_walk, hir_expr_str, hir_sites, must_pass,
+from rules.engine import (control_deps_transitive, switch_condition, origins, origin_callees, deep_origins, short, hir_walk, hir_expr_str, hir_sites, must_pass,
                           success_cuts, witness_path, describe_path, codec_skeleton, split_sections, compare_skeletons,
                           hir_tail_name)
 from rules import anchors as A
@@ -48,6 +48,7 @@ def run(prog, R, tier="quick", only_rule=None):
     # precedence between runs: bulk-ingested tables enter on top only after everything older was flushed beneath them
     from rules.props import c14
     c14.c14b(prog, R, rid="C07.g")
+    c07h(prog, R)
 
 
 def c07a(prog, R, rid="C07.a"):
@@ -458,3 +459,128 @@ def c07f(prog, R, rid="C07.f"):
                 ok = True
     r.check(ok, "leveled::Strategy::choose|L0 compaction takes get_overlapping(target level)", "L0->L1 no longer pulls in every overlapping L1 table", "")
     r.floor(4)
+
+
+LEVELED_CHOOSE = "<compaction::leveled::Strategy as compaction::CompactionStrategy>::choose"
+
+
+def _true_edge(f, a, s):
+    t = f.blocks[a]["term"]
+    zero = [tg for (v, tg) in t.get("targets", []) if str(v) == "0"]
+    return bool(zero) and s not in zero
+
+
+def _chain_callees(prog, f, op, depth=8):
+    """origin_callees plus the callees of the closures handed to the calls on the way (flat_map(|run| run.get_overlapping(..)))."""
+    out = set()
+    seen = set()
+
+    def walk(op_, d):
+        if d < 0 or op_ is None:
+            return
+        for o in origins(f, op_):
+            if o.kind == "call":
+                c = o.extra
+                if c.bb in seen:
+                    continue
+                seen.add(c.bb)
+                out.add(c.sres)
+                for cb in prog.callbacks(c):
+                    g = prog.fns.get(cb)
+                    if g is not None:
+                        out.update(x.sres for x in g.calls)
+                for a_ in c.args:
+                    walk(a_, d - 1)
+    walk(op, depth)
+    return out
+
+
+def c07h(prog, R, rid="C07.h"):
+    """A trivial move re-labels tables as belonging to a deeper level without rewriting them.  It keeps "the table consulted
+    first holds the newer versions" only if nothing between the source and the destination, and nothing in the destination,
+    overlaps the moved key range, and the moved tables are disjoint among themselves."""
+    r = R.rule(rid, "the leveled strategy moves tables down only into a gap", "K,D")
+    f = prog.fn(LEVELED_CHOOSE)
+    if f is None:
+        r.anchor_missing(LEVELED_CHOOSE)
+        return
+    moves = []
+    for i, b in enumerate(f.blocks):
+        for st in b["stmts"]:
+            if st["k"] == "assign" and st["rv"]["k"] == "agg" and st["rv"].get("variant") == "Move":
+                moves.append((i, st["rv"]))
+    if len(moves) < 4:
+        r.anchor_missing("Choice::Move sites in leveled choose (found %d, confirmed 4)" % len(moves))
+    # licensing edges
+    no_overlap, disjoint, inter_empty = set(), set(), set()
+    any_calls = []
+    for a in range(f.n):
+        t = f.blocks[a]["term"]
+        if f.is_cleanup(a) or t["k"] != "switch":
+            continue
+        for o in switch_condition(f, a):
+            for s_ in f.succ(a):
+                te = _true_edge(f, a, s_)
+                if o.kind != "call":
+                    continue
+                c = o.extra
+                nm = c.sres
+                if nm == "key_range::KeyRange::overlaps_with_key_range" and not te:
+                    no_overlap.add((a, s_))
+                elif nm.endswith("Option::is_none") and te and "version::run::Run::get_overlapping" in _chain_callees(prog, f, c.args[0]):
+                    no_overlap.add((a, s_))
+                elif nm.endswith("Vec::is_empty") and te and "version::run::Run::get_overlapping" in _chain_callees(prog, f, c.args[0]):
+                    no_overlap.add((a, s_))
+                elif nm == "compaction::leveled::pick_minimal_compaction" and te and o.path and o.path[-1] == "1":
+                    no_overlap.add((a, s_))      # the can_trivial_move flag (its computation: C07.f)
+                elif nm.endswith("GenericLevel::is_disjoint") and te:
+                    disjoint.add((a, s_))
+                elif nm == "std::iter::Iterator::any" and not te:
+                    inter_empty.add((a, s_))
+                    any_calls.append(((a, s_), c))
+    licensing_any = []
+    for k, (bb, rv) in enumerate(moves):
+        key = "%s|Move #%d" % (LEVELED_CHOOSE, k)
+        r.check(bb not in f.reach([0], cut_edges=no_overlap), key + " only when nothing in the destination overlaps",
+                "tables can be moved into a level although a table there overlaps them (a run with overlapping tables, or newer data "
+                "underneath older)", f.where(bb))
+        r.check(bb not in f.reach([0], cut_edges=disjoint), key + " only when the moved level is disjoint",
+                "an overlapping (multi-run) level can be moved down as one run", f.where(bb))
+        # a move that skips levels (destination = last level) needs the levels in between to be empty
+        di = rv["fields"].index("0") if "0" in rv.get("fields", []) else 0
+        inp = origins(f, rv["ops"][di])
+        to_last = False
+        for o in inp:
+            if o.kind == "agg" and isinstance(o.extra, dict) and "dest_level" in o.extra.get("fields", []):
+                dl = o.extra["ops"][o.extra["fields"].index("dest_level")]
+                if "version::Version::level_count" in origin_callees(f, dl, depth=6):
+                    to_last = True
+        if to_last:
+            lic = [c_ for (e_, c_) in any_calls if bb not in f.reach([0], cut_edges={e_})]
+            licensing_any.extend(lic)
+            r.check(bool(lic), key + " into the last level only when every level in between is empty",
+                    "L0 can be moved into the last level underneath data that sits in an intermediary level", f.where(bb))
+    # the emptiness test looks at every intermediary level and at nothing but its emptiness
+    ok = bool(licensing_any)
+    detail = ""
+    for c in licensing_any:
+        rng = origins(f, c.args[0])
+        okr = False
+        for o in rng:
+            if o.kind == "agg" and isinstance(o.extra, dict) and "Range" in str(o.what):
+                st_, en_ = o.extra["ops"][0], o.extra["ops"][1]
+                okr = st_.get("o") == "const" and str(st_.get("v")) == "1" and "version::Version::level_count" in origin_callees(f, en_, depth=6)
+        cbs = [prog.fns[x] for x in prog.callbacks(c) if x in prog.fns]
+        okc = bool(cbs)
+        for g in cbs:
+            names = {x.sres for x in g.calls if not x.sres.endswith("::deref")}
+            detail = str(sorted(short(x) for x in names))
+            rets = [st["rv"] for b_ in g.blocks for st in b_["stmts"] if st["k"] == "assign" and st["to"]["l"] == 0 and "p" not in st["to"]]
+            neg = bool(rets) and all(rv_["k"] == "un" and rv_["op"] == "Not" and
+                                     any(o.kind == "call" and o.extra.sres.endswith("GenericLevel::is_empty") for o in origins(g, rv_["op_"] if "op_" in rv_ else rv_.get("e", rv_.get("a", rv_.get("operand"))))) for rv_ in rets)
+            okc = okc and names <= {"version::Version::level", "std::option::Option::expect", "version::GenericLevel::is_empty"} and \
+                "version::GenericLevel::is_empty" in names
+        ok = ok and okr and okc
+    r.check(ok, "%s|intermediary levels 1..last are tested for emptiness, nothing weaker" % LEVELED_CHOOSE,
+            "the test that guards the move into the last level no longer is `some level in 1..last is non-empty`", f.where(), detail)
+    r.floor(10)
